@@ -211,27 +211,50 @@ package geojson
 //@   call 0 iterinv FrameE: forall e *extra :: old($alloc)[e] ==> e.members == old(e.members)
 //@   stmt multipoint.go:"g.parseInitRectIndex(opts)" use forall j int :: pointKid(collChild(g.collection, j))
 
+//@ spec func lineLenOK(o Object) bool opaque { isLineStringK(o) && geometry.sNpts(lineOf(o).baseSeries) >= 2 }
 //@ func parseJSONMultiLineString
 //@   props C05 C07 C08
 //@   arith order
-//@   only post.   // collection invariants of the children (CollKidsInv = ObjInv) are domain-restricted: not established for arbitrary documents
+//@   only post. iter. inv. assert.   // collection invariants of the children (CollKidsInv = ObjInv) are domain-restricted: preconditions of parseInitRectIndex are not discharged
 //@   dead cover.ret3
 //@   entry use rootGlobalsInit()
 //@   requires keys != nil && opts != nil
 //@   ensures Shape: okShape(result0, result1)
 //@   ensures C07Kind: result1 == nil ==> (isMultiLineStringK(result0))
+//@   ensures C07Lines: result1 == nil ==> (forall j int :: (0 <= j && j < collN(collOf(result0))) ==> lineLenOK(collChild(collOf(result0), j)))   // every member line has at least two positions
 //@   ensures RequireValid: result1 == nil && opts.RequireValid ==> oValidS(result0)
+//@   call 0 iterstop err != nil
+//@   call 0 iterinv Err: err == nil
+//@   call 0 iterinv Kids: forall j int :: (0 <= j && j < len(g.collection.children)) ==> lineLenOK(collChild(g.collection, j))
+//@   stmt multilinestring.go:"g.children = append(g.children" assert KidsAfterNewLine: forall j int :: (0 <= j && j < len(g.collection.children)) ==> lineLenOK(collChild(g.collection, j))
+//@   stmt multilinestring.go:"g.children = append(g.children" assert NewLen: geometry.sNpts(line.baseSeries) >= 2
 
+//@ spec func polyRingsOK(o Object) bool opaque { isPolygonK(o) && geometry.polyExt(polyOf(o)) != nil && ringOK(geometry.polyExt(polyOf(o))) && holesOK(polyOf(o)) }
 //@ func parseJSONMultiPolygon
 //@   props C05 C07 C08
 //@   arith order
-//@   only post.   // collection invariants of the children (CollKidsInv = ObjInv) are domain-restricted: not established for arbitrary documents
+//@   only post. iter. inv. assert.   // collection invariants of the children (CollKidsInv = ObjInv) are domain-restricted: preconditions of parseInitRectIndex are not discharged
 //@   dead cover.ret3
 //@   entry use rootGlobalsInit()
 //@   requires keys != nil && opts != nil
 //@   ensures Shape: okShape(result0, result1)
 //@   ensures C07Kind: result1 == nil ==> (isMultiPolygonK(result0))
+//@   ensures C07Rings: result1 == nil ==> (forall j int :: (0 <= j && j < collN(collOf(result0))) ==> polyRingsOK(collChild(collOf(result0), j)))   // every member polygon: exterior present, rings of >= 4 positions, closed
 //@   ensures RequireValid: result1 == nil && opts.RequireValid ==> oValidS(result0)
+//@   call 0 iterstop err != nil
+//@   call 0 iterinv Err: err == nil
+//@   call 0 iterinv Kids: forall j int :: (0 <= j && j < len(g.collection.children)) ==> polyRingsOK(collChild(g.collection, j))
+//@   loop 0 invariant Checked: forall k int :: (0 <= k && k < $i) ==> ptsRingOK(geometry.holeAt(coords, k))
+//@   loop 0 assert geometry.holeAt(coords, $i) == p
+//@   stmt multipolygon.go:"gopts := toGeometryOpts(opts)" assert AllRings: forall k int :: (0 <= k && k < len(coords)) ==> ptsRingOK(geometry.holeAt(coords, k))
+//@   stmt multipolygon.go:"gopts := toGeometryOpts(opts)" assert ExtIs: exterior == geometry.holeAt(coords, 0)
+//@   stmt multipolygon.go:"gopts := toGeometryOpts(opts)" assert HolesAre: forall h int :: (0 <= h && h < len(holes)) ==> geometry.holeAt(holes, h) == geometry.holeAt(coords, h+1)
+//@   loop 0 invariant NoErr: err == nil
+//@   loop 0 invariant KidsL: forall j int :: (0 <= j && j < len(g.collection.children)) ==> polyRingsOK(collChild(g.collection, j))
+//@   stmt multipolygon.go:"poly := geometry.NewPoly(exterior, holes, &gopts)" assert KidsBefore: forall j int :: (0 <= j && j < len(g.collection.children)) ==> polyRingsOK(collChild(g.collection, j))
+//@   stmt multipolygon.go:"g.children = append(g.children" assert KidsAfterNewPoly: forall j int :: (0 <= j && j < len(g.collection.children)) ==> polyRingsOK(collChild(g.collection, j))
+//@   stmt multipolygon.go:"g.children = append(g.children" assert PExt: ringOK(geometry.polyExt(poly))
+//@   stmt multipolygon.go:"g.children = append(g.children" assert PHoles: holesOK(poly)
 
 //@ func parseJSONGeometryCollection
 //@   props C05 C07 C08
